@@ -666,6 +666,13 @@ func (x *Exec) evalCall(env *Env, e *Expr) Value {
 			case Ptr:
 				return Scalar{T: s.Base, Typ: types.Typ[types.UnsafePointer]}
 			}
+		case "dyn":
+			// dyn(x): the value stored in interface x (known only when x was just built from it)
+			v := x.evalExpr(env, e.Args[0])
+			if ifc, ok := v.(Iface); ok && ifc.Dyn != nil {
+				return ifc.Dyn
+			}
+			x.fail("dyn(): dynamic value of the interface is not known here")
 		case "istype":
 			// istype(x, T): the dynamic type of interface value x is T
 			v := x.evalExpr(env, e.Args[0])
@@ -734,7 +741,7 @@ func (x *Exec) evalSpecFunc(env *Env, sf *SpecFunc, e *Expr) Value {
 		actuals = append(actuals, v)
 		ptypes = append(ptypes, t)
 	}
-	if sf.Opaque && !x.expandPreds {
+	if sf.Opaque && (!x.expandPreds || x.em.inQuant > 0) {
 		return x.applyPredicate(&sub, sf, actuals, ptypes)
 	}
 	return x.evalExpr(&sub, sf.Body)
